@@ -56,9 +56,6 @@ pub struct SegQueue<T> { _p: core::marker::PhantomData<T> }
 #[verifier::external_body]
 pub struct RowBuffer { _p: core::marker::PhantomData<u8> }
 #[verifier::external_body]
-#[verifier::reject_recursive_types(T)]
-pub struct Pooled<T> { _p: core::marker::PhantomData<T> }
-#[verifier::external_body]
 pub struct SortedOffsetVector { _p: core::marker::PhantomData<u8> }
 
 //@ item core-relations/src/table_spec.rs enum Constraint
@@ -67,6 +64,20 @@ pub struct SortedOffsetVector { _p: core::marker::PhantomData<u8> }
 //@ item core-relations/src/offsets/mod.rs enum Subset
 //@ item core-relations/src/uf/mod.rs type UnionFind
 //@ item core-relations/src/uf/mod.rs struct DisplacedTable
+
+// A-db: with_pool_set(|ps| ps.get::<Vec<Value>>()) hands out an empty pooled vector (Pooled<T> is transparent)
+pub type Pooled<T> = T;
+#[verifier::external_body]
+pub struct PoolSet { _p: core::marker::PhantomData<u8> }
+impl PoolSet {
+    #[verifier::external_body]
+    pub fn get<T>(&self) -> (r: Vec<Value>) ensures r@.len() == 0 { unimplemented!() }
+}
+#[verifier::external_body]
+pub fn with_pool_set<R, F: FnOnce(&PoolSet) -> R>(f: F) -> (r: R)
+    ensures exists|ps: &PoolSet| f.ensures((ps,), r)
+{ unimplemented!() }
+//@ item core-relations/src/table_spec.rs struct Row
 
 //@ impl core-relations/src/offsets/mod.rs impl OffsetRange
 //@ fn new
@@ -310,6 +321,22 @@ impl DisplacedTable {
 //@ at sig
         requires offset.ix() <= self.n(),
         ensures forall|i: int| dense_has(r, i) <==> offset.ix() <= i < self.n(),
+//@ end-fn
+
+//@ fn get_row
+//@ ret r
+//@ rewrite R-ASSERT
+//@ rewrite R-CLOSANN 0 &PoolSet Vec<Value>
+//@ at sig
+        requires self.inv(),
+        ensures match r {
+            // the row [k, canonical id of k, timestamp] exists exactly for displaced ids (what the bridge's get_canon_in_uf reads)
+            Some(row) => self.lookup_table@.contains_key(key@[0]) && row.id == self.lookup_table@[key@[0]]
+                && self.row_ok(row.id.ix() as int, row.vals@) && row.vals@[0] == key@[0],
+            None => !self.lookup_table@.contains_key(key@[0]),
+        }
+//@ at closure 0 spec
+            ensures r@.len() == 0
 //@ end-fn
 
 //@ fn get_row_column
